@@ -2,9 +2,11 @@ package main
 
 import (
 	"fmt"
+	"go/ast"
 	"go/token"
 	"go/types"
 	"sort"
+	"strings"
 
 	"golang.org/x/tools/go/ssa"
 )
@@ -84,6 +86,33 @@ type loopWrites struct {
 	pref       []string
 	all        bool
 	iters      map[*ssa.Range]bool
+	calls      map[string]*logSig // contracted callees that may be called (and logged) in the loop
+	dynCalls   bool               // a call whose callee is not known statically
+}
+
+// logSig: the argument (receiver first) and result types of a logged callee.
+type logSig struct {
+	args []types.Type
+	res  []types.Type
+}
+
+func (w *loopWrites) noteCall(key string, sig *types.Signature, recv types.Type) {
+	if w.calls == nil {
+		w.calls = map[string]*logSig{}
+	}
+	ls := &logSig{}
+	if recv != nil {
+		ls.args = append(ls.args, recv)
+	} else if sig.Recv() != nil {
+		ls.args = append(ls.args, sig.Recv().Type())
+	}
+	for i := 0; i < sig.Params().Len(); i++ {
+		ls.args = append(ls.args, sig.Params().At(i).Type())
+	}
+	for i := 0; i < sig.Results().Len(); i++ {
+		ls.res = append(ls.res, sig.Results().At(i).Type())
+	}
+	w.calls[shortKey(key)] = ls
 }
 
 func (x *Exec) writesOf(fn *ssa.Function, blocks map[int]bool, depth int, w *loopWrites) {
@@ -140,9 +169,12 @@ func (x *Exec) callWrites(cc *ssa.CallCommon, depth int, w *loopWrites) {
 			}
 			key += "(" + n.Obj().Name() + ")." + cc.Method.Name()
 		}
-		if c, ok := x.prog.specs.Funcs[key]; ok && c.ModSet {
-			x.contractWrites(c, w)
-			return
+		if c, ok := x.prog.specs.Funcs[key]; ok {
+			w.noteCall(key, cc.Signature(), cc.Value.Type())
+			if c.ModSet {
+				x.contractWrites(c, w)
+				return
+			}
 		}
 		w.all = true
 		return
@@ -166,6 +198,7 @@ func (x *Exec) callWrites(cc *ssa.CallCommon, depth int, w *loopWrites) {
 			return
 		}
 		if c, ok := x.prog.specs.Funcs[key]; ok && !c.Inline {
+			w.noteCall(key, callee.Signature, nil)
 			if c.ModSet {
 				x.contractWrites(c, w)
 			} else {
@@ -179,6 +212,12 @@ func (x *Exec) callWrites(cc *ssa.CallCommon, depth int, w *loopWrites) {
 		}
 		w.all = true
 	default:
+		if key := funcTypeKey(cc.Value.Type()); key != "" {
+			if _, ok := x.prog.specs.Funcs[key]; ok {
+				w.noteCall(key, cc.Signature(), cc.Value.Type())
+			}
+		}
+		w.dynCalls = true
 		w.all = true
 	}
 }
@@ -331,6 +370,7 @@ func (x *Exec) loopEntry(fr *Frame, st *State, lp *loop, prev *ssa.BasicBlock) {
 	st.alloc = na
 	st.dirty = nil
 	st.invSeen = map[string]bool{}
+	x.symbolizeLog(st, w)
 	if len(x.c.Propagates) > 0 {
 		st.pending = x.fresh("pending", sIface)
 	}
@@ -342,6 +382,7 @@ func (x *Exec) loopEntry(fr *Frame, st *State, lp *loop, prev *ssa.BasicBlock) {
 				continue
 			}
 			st.assume(ev2.evalBool(inv.Text))
+			x.noteFreshConjuncts(ev2, inv.Text)
 		}
 		if ls.Decreases != nil {
 			v := ev2.eval(parseSpecExpr(ls.Decreases.Text)).(Sc)
@@ -438,4 +479,229 @@ func (x *Exec) loopBackEdge(fr *Frame, st *State, lp *loop, prev *ssa.BasicBlock
 		x.oblige(st, "decreases", fmt.Sprintf("loop%d-decreases", lp.ord), props, g, "variant decreases and is bounded below: "+ls.Decreases.Text, posStr(x.prog.fset, blockPosT(b)))
 	}
 	x.paths++
+}
+
+// symbolizeLog: the calls a loop may make are unknown in number; their log entries become a symbolic prefix
+// (a count and one array per argument/result position) that loop invariants can constrain.
+func (x *Exec) symbolizeLog(st *State, w *loopWrites) {
+	if len(w.calls) == 0 {
+		return
+	}
+	nm := map[string]*SymLog{}
+	for k, v := range st.logSym {
+		nm[k] = v
+	}
+	var names []string
+	for n := range w.calls {
+		names = append(names, n)
+	}
+	sort.Strings(names)
+	for _, n := range names {
+		old := x.ncallsTerm(st, n)
+		x.logID++
+		sl := &SymLog{N: x.fresh("ncalls", sInt), ID: x.logID, Sig: w.calls[n]}
+		st.assume(app(sBool, "<=", old, sl.N))
+		nm[n] = sl
+	}
+	st.logSym = nm
+	var keep []LogEntry
+	for _, l := range st.log {
+		if _, ok := w.calls[l.Callee]; !ok {
+			keep = append(keep, l)
+		}
+	}
+	st.log = keep
+}
+
+// ncallsTerm: the number of logged calls of name so far.
+func (x *Exec) ncallsTerm(st *State, name string) Term {
+	c := 0
+	for _, l := range st.log {
+		if l.Callee == name {
+			c++
+		}
+	}
+	if sl := st.logSym[name]; sl != nil {
+		if c == 0 {
+			return sl.N
+		}
+		return app(sInt, "+", sl.N, intLit(int64(c)))
+	}
+	return intLit(int64(c))
+}
+
+// logLookup: argument (res=false) or result (res=true) j of the k-th call of name.
+func (x *Exec) logLookup(st *State, name string, k Term, j int, res bool) Val {
+	sl := st.logSym[name]
+	var ents []LogEntry
+	for _, l := range st.log {
+		if l.Callee == name {
+			ents = append(ents, l)
+		}
+	}
+	pick := func(l LogEntry) Val {
+		if res {
+			return l.Res[j]
+		}
+		return l.Args[j]
+	}
+	none := func() Val { return Sc{x.fresh("nocall", sIface), types.NewInterfaceType(nil, nil)} }
+	if kv, ok := litVal(k); ok && sl == nil {
+		if kv >= 1 && int(kv) <= len(ents) {
+			return pick(ents[kv-1])
+		}
+		// no such call on this path: the clause must be guarded by ncalls(); return an unconstrained value
+		return none()
+	}
+	var gt types.Type
+	var dflt Term
+	if sl != nil {
+		ts := sl.Sig.args
+		tag := "a"
+		if res {
+			ts, tag = sl.Sig.res, "r"
+		}
+		if j >= len(ts) {
+			fail("call log of %s has no position %d", name, j)
+		}
+		gt = ts[j]
+		switch gt.Underlying().(type) {
+		case *types.Slice, *types.Struct, *types.Tuple, *types.Array:
+			fail("call log of %s: position %d of type %s cannot be referred to symbolically", name, j, gt)
+		}
+		so := x.sortOf(gt)
+		arr := Term{S: quoteSym(fmt.Sprintf("log:%s:%d:%s%d", name, sl.ID, tag, j)), Sort: "(Array Int " + so + ")"}
+		x.decls.add(arr.S, fmt.Sprintf("(declare-fun %s () %s)", arr.S, arr.Sort))
+		dflt = mkSelect(arr, k)
+		dflt.Sort = so
+	} else {
+		if len(ents) == 0 {
+			// no call on this path: an unconstrained value of the position's static type, if the callee is known
+			if t := x.logPosType(name, j, res); t != nil {
+				switch t.Underlying().(type) {
+				case *types.Slice, *types.Struct, *types.Tuple, *types.Array:
+				default:
+					return Sc{x.fresh("nocall", x.sortOf(t)), t}
+				}
+			}
+			return none()
+		}
+		sc, ok := pick(ents[0]).(Sc)
+		if !ok {
+			fail("call log of %s: position %d cannot be referred to symbolically", name, j)
+		}
+		gt = sc.GT
+		dflt = x.fresh("nocall", sc.T.Sort)
+	}
+	out := dflt
+	base := intLit(0)
+	if sl != nil {
+		base = sl.N
+	}
+	for m := len(ents) - 1; m >= 0; m-- {
+		sc, ok := pick(ents[m]).(Sc)
+		if !ok || sc.T.Sort != out.Sort {
+			fail("call log of %s: position %d has mixed or composite values", name, j)
+		}
+		out = mkIte(mkEq(k, app(sInt, "+", base, intLit(int64(m+1)))), sc.T, out)
+	}
+	return Sc{out, gt}
+}
+
+// logPosType: the static type of argument/result position j of the contracted function logged as name.
+func (x *Exec) logPosType(name string, j int, res bool) types.Type {
+	for _, k := range x.prog.specs.Order {
+		if shortKey(k) != name || strings.HasPrefix(k, "functype:") {
+			continue
+		}
+		var sig *types.Signature
+		if strings.HasPrefix(k, "iface:") {
+			// iface:pkg.(Name).Method
+			q := strings.TrimPrefix(k, "iface:")
+			a, b := strings.Index(q, ".("), strings.Index(q, ").")
+			if a < 0 || b < 0 {
+				continue
+			}
+			nt, ok := x.prog.namedType(q[:a] + "." + q[a+2:b])
+			if !ok {
+				continue
+			}
+			it, ok := nt.Underlying().(*types.Interface)
+			if !ok {
+				continue
+			}
+			for i := 0; i < it.NumMethods(); i++ {
+				if it.Method(i).Name() == q[b+2:] {
+					sig = it.Method(i).Type().(*types.Signature)
+				}
+			}
+			if sig == nil {
+				continue
+			}
+			if !res {
+				if j == 0 {
+					return nt
+				}
+				if j-1 < sig.Params().Len() {
+					return sig.Params().At(j - 1).Type()
+				}
+				return nil
+			}
+		} else {
+			sig = x.prog.signatureOf(k)
+		}
+		if sig == nil {
+			continue
+		}
+		if res {
+			if j < sig.Results().Len() {
+				return sig.Results().At(j).Type()
+			}
+			return nil
+		}
+		if sig.Recv() != nil {
+			if j == 0 {
+				return sig.Recv().Type()
+			}
+			j--
+		}
+		if j < sig.Params().Len() {
+			return sig.Params().At(j).Type()
+		}
+	}
+	return nil
+}
+
+// noteFreshConjuncts: an assumed clause with top-level conjuncts fresh(e) tells the syntactic heap resolution that
+// the reference e was allocated during this call, hence differs from every reference that existed at entry.
+func (x *Exec) noteFreshConjuncts(ev *specEnv, text string) {
+	n := parseSpecExpr(text)
+	if n.op != "" || n.e == nil {
+		return
+	}
+	var walk func(e ast.Expr)
+	walk = func(e ast.Expr) {
+		switch e := e.(type) {
+		case *ast.ParenExpr:
+			walk(e.X)
+		case *ast.BinaryExpr:
+			if e.Op == token.LAND {
+				walk(e.X)
+				walk(e.Y)
+			}
+		case *ast.CallExpr:
+			if id, ok := e.Fun.(*ast.Ident); ok && id.Name == "fresh" && len(e.Args) == 1 && ev.old != nil {
+				func() {
+					defer func() { recover() }()
+					sub := &specNode{e: e.Args[0], ph: n.ph, text: exprString(e.Args[0])}
+					r := ev.refOf(ev.eval(sub))
+					if x.lowerOf == nil {
+						x.lowerOf = map[string]int{}
+					}
+					x.lowerOf[r.S] = allocNum(ev.old.alloc.S)
+				}()
+			}
+		}
+	}
+	walk(n.e)
 }
